@@ -29,5 +29,5 @@ func (b *B) UnmarshalJSON(data []byte) error {
 
 func (b B) String() string { return string(b) }
 
-func q(b []byte) string { return strconv.QuoteToASCII(string(b)) }
+func q(b []byte) string  { return strconv.QuoteToASCII(string(b)) }
 func qs(s string) string { return strconv.QuoteToASCII(s) }
